@@ -154,8 +154,9 @@ func stripIntConv(t Term) Term {
 // ---- finite folding of terms
 
 type termEnv struct {
-	hook func(t Term) (int64, bool)
-	fail string
+	hook  func(t Term) (int64, bool)
+	bhook func(t Term) (bool, bool) // optional: values of boolean atoms (loop-carried flags)
+	fail  string
 }
 
 func (e *termEnv) int(t Term) (int64, bool) {
@@ -227,6 +228,11 @@ func (e *termEnv) int(t Term) (int64, bool) {
 }
 
 func (e *termEnv) bool(t Term) (bool, bool) {
+	if e.bhook != nil {
+		if v, ok := e.bhook(t); ok {
+			return v, true
+		}
+	}
 	switch x := t.(type) {
 	case TConst:
 		if x.Val.Kind() == constant.Bool {
